@@ -304,7 +304,7 @@ def judge_collection(s1, s2):
 # --------------------------------------------------------------------------- generated derivations
 
 # where a name can occur: every wrapper is a derivation of the grammar around one atom A (none begins with a digit or a sign, so
-# that an atom ending in a suffix letter e/E in front of it can never turn into an exponent)
+# that an atom ending in a suffix letter e/E in front of it can only turn into an exponent where Derivations.build says so)
 POSITIONS = [('top', '%s', None), ('parenthesised', '(%s)', None), ('argument', 'g(%s)', 'g'), ('second argument', 'g(1,%s)', 'g'),
              ('array entry', '[1,%s]', None), ('nested array entry', '[[%s,1],[2,3]]', None), ('exponent', '(2)^%s', None),
              ('negative exponent', '(2)^-%s', None), ('base', '%s^2', None), ('denominator', '(1)/%s', None),
@@ -364,7 +364,14 @@ class Derivations(Family):
         if len(case) == 3:
             return t1[0], t1[1:]
         t2 = deriv_term(*case[3:6])
-        return t1[0] + JOINS[case[6]] + t2[0], tuple(t1[i] | t2[i] for i in (1, 2, 3))
+        text = t1[0] + JOINS[case[6]] + t2[0]
+        sets3 = [t1[i] | t2[i] for i in (1, 2, 3)]
+        if (case[1] == 2 and DERIV_SUFFIXES[case[2]] in ('e', 'E') and POSITIONS[case[0]][1].endswith('%s')
+                and JOINS[case[6]] in '+-' and case[4] == 2 and POSITIONS[case[3]][1].startswith('%s')):
+            # the one documented ambiguity: <digits>e, a sign, <digits> is ONE number with an exponent ('3e-3ea' is 3e-3 with
+            # the suffix ea), so the first term's suffix letter e is no suffix here
+            sets3[2] = set(t2[3])
+        return text, tuple(sets3)
 
     def describe(self, case):
         return self.build(case)[0]
